@@ -68,14 +68,96 @@ class Run:
 _feas_solver_timeout_ms = 2000
 
 
+def guarded_check(assertions, timeout_ms, on_sat=None, grace=1.5):
+    """s.check() in a forked child with a HARD wall-clock limit (z3 5.1's sequence solver can ignore its own
+    timeout). Returns (verdict, payload): verdict in sat/unsat/unknown/hang; payload = on_sat(model) JSON for sat."""
+    import json
+    import os
+    import select
+    import signal
+    r, w = os.pipe()
+    pid = os.fork()
+    if pid == 0:
+        try:
+            os.close(r)
+            s = z3.Solver()
+            s.set("timeout", int(timeout_ms))
+            for c in assertions:
+                s.add(c)
+            res = s.check()
+            out = {"v": str(res)}
+            if res == z3.sat and on_sat is not None:
+                try:
+                    out["p"] = on_sat(s.model())
+                except BaseException as e:  # noqa
+                    out["p"] = None
+                    out["err"] = repr(e)[:300]
+            elif res == z3.unknown:
+                out["why"] = s.reason_unknown()
+            data = json.dumps(out, default=str).encode()
+            os.write(w, len(data).to_bytes(8, "big") + data)
+        except BaseException:  # noqa
+            pass
+        finally:
+            os._exit(0)
+    os.close(w)
+    deadline = timeout_ms / 1000.0 + grace
+    buf = b""
+    import time as _t
+    t0 = _t.time()
+    verdict, payload = "hang", None
+    try:
+        while True:
+            left = deadline - (_t.time() - t0)
+            if left <= 0:
+                break
+            rd, _, _ = select.select([r], [], [], left)
+            if not rd:
+                break
+            chunk = os.read(r, 1 << 20)
+            if not chunk:
+                break
+            buf += chunk
+            if len(buf) >= 8 and len(buf) >= 8 + int.from_bytes(buf[:8], "big"):
+                break
+        if len(buf) >= 8 and len(buf) >= 8 + int.from_bytes(buf[:8], "big"):
+            out = json.loads(buf[8:8 + int.from_bytes(buf[:8], "big")].decode())
+            verdict, payload = out["v"], out
+    finally:
+        os.close(r)
+        try:
+            os.kill(pid, signal.SIGKILL)
+        except ProcessLookupError:
+            pass
+        try:
+            os.waitpid(pid, 0)
+        except ChildProcessError:
+            pass
+    return verdict, payload
+
+
+FEAS_STATS = {"api": 0, "cli": 0, "unknown": 0}
+
+
 def feasible(pc, extra):
-    s = z3.Solver()
-    s.set("timeout", _feas_solver_timeout_ms)
-    for c in pc:
-        s.add(c)
-    s.add(extra)
-    r = s.check()
-    return r != z3.unsat
+    """Path pruning only: `unknown` counts as feasible. z3 5.1 first (0.4 s hard), then /usr/bin/z3 4.8.12."""
+    cs = list(pc) + [extra]
+    v, _ = guarded_check(cs, 400, grace=0.2)
+    FEAS_STATS["api"] += 1
+    if v in ("sat", "unsat"):
+        return v != "unsat"
+    FEAS_STATS["cli"] += 1
+    try:
+        s = z3.Solver()
+        for c in cs:
+            s.add(c)
+        from .verify import _z3_old
+        v = _z3_old(s.to_smt2(), 2000)
+    except Exception:  # noqa
+        v = "unknown"
+    if v not in ("sat", "unsat"):
+        FEAS_STATS["unknown"] += 1
+    return v != "unsat"
 
 
 def is_true(t):
